@@ -1050,6 +1050,122 @@ fn run_flood_variant(bed: &Bed, fv: &FloodVariant, trip: Option<usize>, at_thres
     v
 }
 
+// ------------------------------------------------------ history family ----
+
+/// One connection on the limit-2 listener, a sequence of frames on several
+/// stream ids (requests are never answered by the backend, so streams leave
+/// the map only through the peer's RST_STREAM); after every frame a PING
+/// synchronises, and the answer to that frame (nothing / RST_STREAM(code) on its
+/// stream / GOAWAY(code)) is compared with the Lean history model `connStep`.
+struct History {
+    name: String,
+    /// (stream id, kind, END_STREAM)
+    frames: Vec<(u32, Fk, bool)>,
+}
+
+fn history_frame(sid: u32, fk: Fk, es: bool) -> Vec<u8> {
+    match fk {
+        // a request the backend never answers; without END_STREAM it is a POST
+        Fk::Headers => frame(1, if es { 0x5 } else { 0x4 }, sid, &request_block(!es, "/hold/history")),
+        Fk::Data => frame(0, es as u8, sid, b"d"),
+        o => o.bytes(sid),
+    }
+}
+
+fn build_histories(seed: u64, thorough: bool) -> Vec<History> {
+    let fixed: Vec<(&str, Vec<(u32, Fk, bool)>)> = vec![
+        // the lead's witness for the refused-stream watermark
+        ("refused_then_frames", vec![(1, Fk::Headers, true), (3, Fk::Headers, true), (5, Fk::Headers, true), (5, Fk::Data, false), (5, Fk::WindowUpdate, false), (1, Fk::WindowUpdate, false)]),
+        // a refused id is re-used once a slot is free (C15_stream_state_history_counterexample)
+        ("refused_id_reused", vec![(1, Fk::Headers, true), (3, Fk::Headers, true), (5, Fk::Headers, true), (1, Fk::RstStream, false), (5, Fk::Headers, true), (5, Fk::WindowUpdate, false)]),
+        ("open_then_end_stream", vec![(1, Fk::Headers, false), (1, Fk::Data, false), (1, Fk::Data, true), (1, Fk::WindowUpdate, false), (1, Fk::Data, false)]),
+        ("closed_by_peer_rst", vec![(3, Fk::Headers, true), (3, Fk::RstStream, false), (3, Fk::WindowUpdate, false), (3, Fk::Data, false), (3, Fk::Data, false), (1, Fk::Data, false), (3, Fk::Headers, true)]),
+    ];
+    let mut out: Vec<History> = fixed.into_iter().map(|(n, f)| History { name: format!("history:{n}"), frames: f }).collect();
+    let n = if thorough { 150 } else { 16 };
+    for i in 0..n {
+        let mut rng = Rng::for_case(seed ^ 0x4157_0000, i);
+        let len = rng.range(5, 14);
+        let mut frames = vec![];
+        let mut next_new = 1u32;
+        for _ in 0..len {
+            let kind = rng.below(10);
+            if kind < 4 {
+                // a new request (sometimes skipping ids, sometimes without END_STREAM)
+                next_new += 2 * rng.below(2) as u32;
+                frames.push((next_new, Fk::Headers, rng.chance(2, 3)));
+                next_new += 2;
+            } else {
+                let sid = if rng.chance(4, 5) && next_new > 1 { 1 + 2 * rng.below((next_new as u64) / 2) as u32 } else { next_new + 2 * rng.below(3) as u32 };
+                let mut fk = *rng.pick(&[Fk::Data, Fk::Data, Fk::WindowUpdate, Fk::RstStream, Fk::RstStream, Fk::Priority, Fk::Headers]);
+                // a second HEADERS on a stream opened without END_STREAM is a trailer block (HPACK / pkawa
+                // validation, property C03): outside this model
+                if fk == Fk::Headers && frames.iter().any(|(s0, k0, e0)| *s0 == sid && *k0 == Fk::Headers && !*e0) {
+                    fk = Fk::WindowUpdate;
+                }
+                frames.push((sid, fk, fk == Fk::Data && rng.chance(1, 3) || fk == Fk::Headers));
+            }
+        }
+        out.push(History { name: format!("history:random:{i}"), frames });
+    }
+    out
+}
+
+fn run_history(bed: &Bed, h: &History, model: &[String]) -> Verdict {
+    let mut v = Verdict { fails: vec![], known: vec![], tags: vec![], observed: String::new() };
+    let fail = |v: &mut Verdict, class: &str, detail: String| v.fails.push((class.to_string(), format!("{}: {detail}", h.name)));
+    let mut c = match Client::connect(bed.front_limit2).and_then(|mut c| c.handshake().map(|_| c)) {
+        Ok(c) => c,
+        Err(e) => {
+            fail(&mut v, "handshake-failed", e);
+            return v;
+        }
+    };
+    let mut seen = vec![];
+    // streams known to be in sozu's map with END_STREAM not yet received (HEADERS on those would be trailers: not modelled)
+    for (k, (sid, fk, es)) in h.frames.iter().enumerate() {
+        let mark = c.frames.len();
+        let sync = [0xC0, k as u8, 1, 2, 3, 4, 5, 6];
+        let mut bytes = history_frame(*sid, *fk, *es);
+        bytes.extend(frame(6, 0, 0, &sync));
+        c.send(&bytes);
+        c.read_until(CASE_DEADLINE, |fs| ping_acked(fs, &sync) || fs.iter().any(|f| f.ty == 7));
+        let new = &c.frames[mark..];
+        let observed = if let Some(g) = new.iter().find(|f| f.ty == 7 && f.payload.len() >= 8) {
+            format!("cerr {}", u32::from_be_bytes([g.payload[4], g.payload[5], g.payload[6], g.payload[7]]))
+        } else if let Some(r) = new.iter().find(|f| f.ty == 3 && f.sid == *sid && f.payload.len() == 4) {
+            format!("serr {}", u32::from_be_bytes([r.payload[0], r.payload[1], r.payload[2], r.payload[3]]))
+        } else if ping_acked(new, &sync) {
+            "handled".to_string()
+        } else {
+            "silent".to_string()
+        };
+        let m = model.get(k).cloned().unwrap_or_default();
+        seen.push(format!("{sid}:{}:{}={observed}", fk.name(), *es as u8));
+        v.tags.push(format!("history:{}={}", fk.name(), observed.split(' ').next().unwrap_or("")));
+        if observed != m {
+            let class = if observed == "silent" { "history-frame-unanswered" } else { "stream-history-differs-from-model" };
+            fail(&mut v, class, format!("frame {k} ({sid} {} es={es}): model `{m}`, observed `{observed}`; so far {seen:?}", fk.name()));
+            break;
+        }
+        if observed.starts_with("cerr") {
+            // absorbing: the connection must now be released
+            if c.read_until(CASE_DEADLINE, |_| false) != End::Closed {
+                fail(&mut v, "connection-not-released-after-goaway", format!("{seen:?}"));
+            }
+            break;
+        }
+        // the advertised limit: never more than 2 of our requests are open (refusals beyond that)
+    }
+    if h.name == "history:refused_id_reused" {
+        let reused = seen.get(4).map(|s| s.ends_with("=handled")).unwrap_or(false);
+        v.known.push(("refused-stream-id-reuse-accepted".into(), reused));
+        v.tags.push(format!("history:refused-id-reuse-{}", if reused { "accepted" } else { "refused" }));
+    }
+    v.observed = seen.join(" ");
+    v
+}
+
 // -------------------------------------------------------------------- main ----
 
 struct Verdict {
@@ -1385,6 +1501,49 @@ fn main() {
             }
         }
     }
+    // ---- history family: frame sequences on one connection vs the Lean history model
+    let histories: Vec<History> = build_histories(args.seed, thorough)
+        .into_iter()
+        .filter(|h| !replaying || replay_names.iter().any(|n| *n == h.name))
+        .collect();
+    let mut hinput = String::new();
+    for (i, h) in histories.iter().enumerate() {
+        hinput.push_str(&format!("#case {i}\nnew\ncnew 2\n"));
+        for (sid, fk, es) in &h.frames {
+            hinput.push_str(&format!("cframe {sid} {} {}\n", fk.name(), *es as u8));
+        }
+    }
+    let mut hmodel: Vec<Vec<String>> = vec![];
+    for l in run_model(&args.driver, &hinput) {
+        if l.starts_with("#case ") {
+            hmodel.push(vec![]);
+        } else if let Some(last) = hmodel.last_mut() {
+            if l != "new" && l != "cnew" {
+                last.push(l);
+            }
+        }
+    }
+    for (i, h) in histories.iter().enumerate() {
+        let v = run_history(&bed, h, hmodel.get(i).map(|x| x.as_slice()).unwrap_or(&[]));
+        evaluations += 1;
+        nontrivial += 1;
+        for t in &v.tags {
+            *dist.entry(t.clone()).or_insert(0) += 1;
+        }
+        *dist.entry("kind:history".into()).or_insert(0) += 1;
+        if i < 2 {
+            samples.push(json!({"case": h.name, "model": hmodel.get(i), "observed": v.observed}));
+        }
+        for (class, detail) in &v.fails {
+            push_fail(&mut failures, class, detail, vec![format!("h2conn {}", h.name)]);
+        }
+        for (class, reproduced) in &v.known {
+            known.push(json!({"class": class, "reproduced": reproduced, "detail": h.name}));
+        }
+    }
+    if !bed.worker.alive().is_alive() {
+        push_fail(&mut failures, "worker-died-or-wedged", "after the history family", vec![]);
+    }
     // ---- stream-state family (verdicts of the Lean table in one driver run)
     let sinput: String = std::iter::once("new".to_string()).chain(stream_cases.iter().map(|c| format!("stream {} {}", c.scene.model_state(), c.fk.name()))).collect::<Vec<_>>().join("\n") + "\n";
     let smodel: Vec<String> = run_model(&args.driver, &sinput).into_iter().skip(1).collect();
@@ -1438,7 +1597,7 @@ fn finish(args: &Args, evaluations: u64, nontrivial: u64, failures: &[Value], kn
         "seed": args.seed,
         "evaluations": evaluations,
         "distinct_nontrivial": nontrivial,
-        "rule": "black box: one real worker (HTTPS listener, H1 backend), one TLS+h2 client connection per case: a complete random/corner frame after the settings exchange followed by a PING (verdict: the Lean decoder's: err c => GOAWAY(c), exact on stream 0 and for oversize, any of PROTOCOL/STREAM_CLOSED/FRAME_SIZE or a stream error when stream state is consulted first; ok => answered, never silence), PING/SETTINGS/WINDOW_UPDATE/CONTINUATION floods with the trip point predicted by the Lean flood model (acknowledged-frame count compared), empty-DATA and rapid-reset floods, zero increment, window overflow, stray CONTINUATION, 120 unanswered requests vs the advertised 100-stream limit, first-SETTINGS payloads vs the model's first_settings; flood-variant family: every flood kind in its wire-level variants (empty DATA unpadded / PADDED pad 0 / pad 5 / pad 255 / mixed, on an open and on a closed stream; PING plain / odd flags / ACK / mixed; SETTINGS empty / known entries / unknown ids / ACK / mixed; WINDOW_UPDATE stream 0 with small increments, reserved bit, flags; CONTINUATION with empty fragments after an empty or 2-byte HEADERS fragment; WINDOW_UPDATE / RST_STREAM / DATA floods on a closed stream (glitch counter); PRIORITY / PRIORITY_UPDATE / unknown-type floods, which no counter looks at) - the trip point is computed by the Lean model (decoded frame -> frameEvents -> detector) and the connection is driven once to one frame below it (must be served) and once exactly to it (must get GOAWAY(ENHANCE_YOUR_CALM) and be closed); stream-state family on a listener with h2_max_concurrent_streams=2: DATA/HEADERS/WINDOW_UPDATE/RST_STREAM/PRIORITY/CONTINUATION on a stream id that is idle (above every used id), implicitly closed (below), closed by END_STREAM (equal to / below the last id), closed by the peer's RST_STREAM, refused by the stream limit, refused while draining after SoftStop's GOAWAY (own worker), half-closed (remote), open - sent after the scene is established and in one batch with it, random odd ids in thorough; judged by an RFC 9113 5.1 table written here and compared exactly with the Lean table `headerVerdict`; afterwards a slot is freed and a new stream on the same connection must be answered 200; after a GOAWAY the connection must be closed; worker.alive(), a long-lived good connection and a fresh probe connection must keep being served",
+        "rule": "black box: one real worker (HTTPS listener, H1 backend), one TLS+h2 client connection per case: a complete random/corner frame after the settings exchange followed by a PING (verdict: the Lean decoder's: err c => GOAWAY(c), exact on stream 0 and for oversize, any of PROTOCOL/STREAM_CLOSED/FRAME_SIZE or a stream error when stream state is consulted first; ok => answered, never silence), PING/SETTINGS/WINDOW_UPDATE/CONTINUATION floods with the trip point predicted by the Lean flood model (acknowledged-frame count compared), empty-DATA and rapid-reset floods, zero increment, window overflow, stray CONTINUATION, 120 unanswered requests vs the advertised 100-stream limit, first-SETTINGS payloads vs the model's first_settings; flood-variant family: every flood kind in its wire-level variants (empty DATA unpadded / PADDED pad 0 / pad 5 / pad 255 / mixed, on an open and on a closed stream; PING plain / odd flags / ACK / mixed; SETTINGS empty / known entries / unknown ids / ACK / mixed; WINDOW_UPDATE stream 0 with small increments, reserved bit, flags; CONTINUATION with empty fragments after an empty or 2-byte HEADERS fragment; WINDOW_UPDATE / RST_STREAM / DATA floods on a closed stream (glitch counter); PRIORITY / PRIORITY_UPDATE / unknown-type floods, which no counter looks at) - the trip point is computed by the Lean model (decoded frame -> frameEvents -> detector) and the connection is driven once to one frame below it (must be served) and once exactly to it (must get GOAWAY(ENHANCE_YOUR_CALM) and be closed); history family: frame sequences (new requests that the backend never answers, DATA with/without END_STREAM, WINDOW_UPDATE, RST_STREAM, PRIORITY, HEADERS on used/refused ids) on one connection of the limit-2 listener, a PING after every frame, the answer to each frame compared with the Lean history model connStep; stream-state family on a listener with h2_max_concurrent_streams=2: DATA/HEADERS/WINDOW_UPDATE/RST_STREAM/PRIORITY/CONTINUATION on a stream id that is idle (above every used id), implicitly closed (below), closed by END_STREAM (equal to / below the last id), closed by the peer's RST_STREAM, refused by the stream limit, refused while draining after SoftStop's GOAWAY (own worker), half-closed (remote), open - sent after the scene is established and in one batch with it, random odd ids in thorough; judged by an RFC 9113 5.1 table written here and compared exactly with the Lean table `headerVerdict`; afterwards a slot is freed and a new stream on the same connection must be answered 200; after a GOAWAY the connection must be closed; worker.alive(), a long-lived good connection and a fresh probe connection must keep being served",
         "samples": samples,
         "traces_validated_against_impl": evaluations - failures.len() as u64,
         "disagreements_checked": evaluations,
